@@ -130,7 +130,14 @@ func C18(c *ev.Ctx) {
 	rr := rng(c, 18)
 	var cases [][]tgFile
 	nn := 0
-	name := func() string { nn++; return fmt.Sprintf("N%d", nn) }
+	// names start with an upper- or a lower-case letter in turn (test functions are named testFoo as well as testfoo)
+	name := func() string {
+		nn++
+		if nn%3 == 0 {
+			return fmt.Sprintf("n%d", nn)
+		}
+		return fmt.Sprintf("N%d", nn)
+	}
 	// systematic: every (file kind, line class) alone and next to a plain test
 	for _, k := range tgKinds {
 		for _, cl := range tgClasses {
@@ -143,6 +150,8 @@ func C18(c *ev.Ctx) {
 		cases = append(cases, []tgFile{{Kind: "exttest", Name: tgFileName("exttest", 0), Lines: []tgLine{{cl, name()}}},
 			{Kind: "src", Name: tgFileName("src", 1), Lines: []tgLine{{"test", name()}, {"failing", name()}, {"oneline", name()}}}})
 	}
+	// two test functions whose names differ only in the case of the first letter after "test"
+	cases = append(cases, []tgFile{{Kind: "src", Name: tgFileName("src", 0), Lines: []tgLine{{"test", "u32Wraps"}, {"test", "U32Wraps"}, {"failing", "xY"}, {"failing", "XY"}}}})
 	// files longer than a read buffer: tests before, between and after the padding
 	cases = append(cases, []tgFile{{Kind: "src", Name: tgFileName("src", 0), Lines: []tgLine{{"test", name()}, {"failing", name()}, {"bigcomment", name()}, {"test", name()}, {"bigcomment", name()}, {"failing", name()}, {"oneline", name()}}}})
 	cases = append(cases, []tgFile{{Kind: "src", Name: tgFileName("src", 0), Lines: []tgLine{{"bigcomment", name()}, {"test", name()}}},
@@ -332,6 +341,26 @@ func C18(c *ev.Ctx) {
 				c.Violation("testgen.compile", "the generated Go test file does not compile against the package:\n"+msg, map[string]string{"dir.json": jsonStr(d), "go.out": goOut})
 			}
 		}
+	}
+	// a directory with more source files than the process may have open at once (the generators never needed to keep
+	// files open): either the run fails, or it succeeds with every test
+	{
+		root := filepath.Join(c.Scratch, "tgdir", "manyfiles")
+		_ = os.RemoveAll(filepath.Dir(root))
+		_ = os.MkdirAll(root, 0755)
+		const nFiles = 120
+		for k := 0; k < nFiles; k++ {
+			_ = os.WriteFile(filepath.Join(root, fmt.Sprintf("f%03d.go", k)), []byte(fmt.Sprintf("package semantics\n\nfunc testMany%d() bool {\n\treturn true\n}\n", k)), 0644)
+		}
+		for _, mode := range []string{"-go", "-coq"} {
+			out, err := exec.Command("bash", "-c", "ulimit -n 40; exec \"$0\" \"$1\" \"$2\"", tg, mode, root).CombinedOutput()
+			n := strings.Count(string(out), "testMany")
+			per := map[string]int{"-go": 1, "-coq": 2}[mode]
+			if err == nil && n < nFiles*per {
+				c.Violation("testgen.silently-incomplete", fmt.Sprintf("test_gen %s on a directory of %d one-test files, run with at most 40 open files: exit 0 but only %d of %d mentions of the test functions: tests are missing from a run that reports success", mode, nFiles, n, nFiles*per), map[string]string{"out.txt": firstLines(string(out), 40)})
+			}
+		}
+		c.Set("many_files_under_descriptor_limit", nFiles)
 	}
 	c.AddTraces(len(cases))
 	c.Set("evaluations", len(cases))
